@@ -14,6 +14,7 @@ VIOLATION with the SQL as replay.  impl != model with a clean monitor is a stale
 """
 import collections
 import json
+import os
 import re
 
 import c02
@@ -242,8 +243,33 @@ def gen_statements(chk):
 THOROUGH_RANDOM_DIALECTS = ["ansi", "sparksql", "tsql", "bigquery", "postgres", "snowflake", "mysql", "hive", "redshift", "non-validating"]
 
 
+PROJECTION_FAIL_CLASSES = (NOT_IN_LINEAGE, NOT_CONNECTED, LAST_NOT_TARGET, HOLDER_NOT_PROJ)
+
+
+def stmtok_flags(asts):
+    """which statements satisfy the hypothesis `StmtOK` of the Lean projection theorems (Props.C06.stmtOKb, evaluated by
+    lean/StmtOk.lean in ONE interpreter run); None when the evaluator is not available - then the tie is reported as not run"""
+    import subprocess
+    lean_dir = os.path.join(os.path.dirname(os.path.dirname(os.path.abspath(__file__))), "lean")
+    try:
+        p = subprocess.run(["lake", "env", "lean", "--run", "StmtOk.lean"], cwd=lean_dir, input="\n".join(json.dumps(a) for a in asts) + "\n",
+                           capture_output=True, text=True, timeout=600)
+        lines = p.stdout.split()
+        if p.returncode != 0 or len(lines) != len(asts):
+            log(f"[c06] StmtOk evaluator unavailable (rc={p.returncode}, {len(lines)}/{len(asts)} answers): {p.stderr[-300:]}")
+            return None
+        return [x == "1" for x in lines]
+    except Exception as e:  # noqa
+        log(f"[c06] StmtOk evaluator unavailable: {type(e).__name__}")
+        return None
+
+
 def part_statements(chk, drv, st, dialects, enum):
     cases = gen_statements(chk)
+    flags = stmtok_flags([s for _, s in cases])
+    st.c["theorem-fragment:evaluator"] = "ran" if flags is not None else "not run"
+    if flags is not None:
+        st.c["theorem-fragment:statements"] = sum(flags)
     ans1 = sqlcheck.model_eval(drv, [[s] for _, s in cases])
     ans2 = sqlcheck.model_eval(drv, [[s] for _, s in cases], rev_star=1)
     if chk.tier == "thorough":
@@ -270,6 +296,16 @@ def part_statements(chk, drv, st, dialects, enum):
             st.c["stmt:" + r["error"]] += 1
             continue
         chk.count("stmt:" + canon_json([sql, d]), bool(r["paths"]))
+        if flags is not None and flags[ci] and d != "non-validating":
+            # inside the fragment of Props.C06.script_path_roles_flat_partial the model projects: the implementation must too, and no
+            # known-finding class may be invoked - a projection failure here means the model no longer describes the code
+            st.c["theorem-fragment:cases"] += 1
+            bad = [f for f in r["fails"] if f["class"] in PROJECTION_FAIL_CLASSES]
+            if bad:
+                st.c["theorem-fragment:projection-failures"] += 1
+                if len(chk.stale) < 10:
+                    chk.stale.append({"kind": "theorem-fragment", "theorem": "Props.C06.script_path_roles_flat_partial / stmtOK_holder",
+                                      "sql": sql, "dialect": d, "ast": s, "failures": bad[:4]})
         if not handle_fails(chk, st, r["fails"], {"sql": sql, "dialect": d, "ast": s}, ast=[s]):
             return False
         enum.add({"sql": sql, "dialect": d}, r["export"])
